@@ -251,6 +251,28 @@ func (p *pki) serverCert(c Chain, hostKind string, sniNames []string) (tls.Certi
 	if c.Signer == "lookalike" {
 		return p.lookalike(tpl, c.Extra)
 	}
+	if c.Signer == "borrowed" {
+		// the server's own certificate: self-signed and flagged as a CA; behind it the public certificate of a genuine
+		// server (the key of which this server does not have)
+		gen := *tpl
+		genuine, err := p.mint(&gen, &p.bundleCA)
+		if err != nil {
+			return tls.Certificate{}, err
+		}
+		own := *tpl
+		own.Subject = pkix.Name{CommonName: "verif borrowed front"}
+		own.IsCA, own.BasicConstraintsValid = true, true
+		own.KeyUsage = x509.KeyUsageDigitalSignature | x509.KeyUsageCertSign
+		front, err := p.mint(&own, nil)
+		if err != nil {
+			return tls.Certificate{}, err
+		}
+		out := tls.Certificate{Certificate: [][]byte{front.der}, PrivateKey: front.key, Leaf: front.cert}
+		if c.Extra {
+			out.Certificate = append(out.Certificate, genuine.der)
+		}
+		return out, nil
+	}
 	var parent *keyCert
 	var extra []byte
 	switch c.Signer {
